@@ -958,6 +958,48 @@ pub fn pick_compaction_probe(
     ))
 }
 
+/// The whole `VersionSet::pick_compaction` on a synthetic version with a recorded seek compaction
+/// (`seek` = level and number of the `file_to_compact`): level, numbers of the level files, numbers
+/// of the parent files of what it picked.
+#[allow(clippy::type_complexity)]
+pub fn pick_compaction_probe_with_seek(
+    options: &crate::DbOptions,
+    levels: &[Vec<FileDump>],
+    pointers: &[Option<IKey>],
+    seek: Option<(usize, u64)>,
+) -> Result<Option<(usize, Vec<u64>, Vec<u64>)>, String> {
+    use crate::versioning::file_metadata::FileMetadata;
+    let table_cache = Arc::new(crate::table_cache::TableCache::new(options.clone(), 10));
+    let mut files = vec![];
+    for level_files in levels.iter().take(crate::config::MAX_NUM_LEVELS) {
+        let mut metadata = vec![];
+        for file in level_files {
+            let mut meta = FileMetadata::new(file.number);
+            meta.set_file_size(file.size);
+            meta.set_smallest_key(Some(to_internal_key(&file.smallest)?));
+            meta.set_largest_key(Some(to_internal_key(&file.largest)?));
+            metadata.push(Arc::new(meta));
+        }
+        files.push(metadata);
+    }
+    let mut pointer_keys = vec![];
+    for pointer in pointers {
+        pointer_keys.push(match pointer {
+            Some(key) => Some(to_internal_key(key)?),
+            None => None,
+        });
+    }
+    Ok(
+        crate::versioning::version_set::VersionSet::verif_pick_probe_with_seek(
+            options,
+            &table_cache,
+            files,
+            pointer_keys,
+            seek,
+        ),
+    )
+}
+
 /// Ask the real `CompactionManifest::is_base_level_for_key` of a compaction of `level` on a
 /// synthetic version about `keys`, one after the other on the same manifest (its per-level
 /// pointers only move forward).
